@@ -8,6 +8,7 @@ from vlib.sel import sel, concrete
 import numpy as np
 import formulas
 from formulas.tokens.operand import XlError
+import hashref
 
 P = "'[b]S'!"
 RING = ['A1', 'B1', 'C1']
@@ -91,9 +92,35 @@ def book_ok(b0: bool, b1: bool, b2: bool, c0: bool, c1: bool, c2: bool, flag: bo
     return concrete(_book, kinds, True if flag else False)
 
 
+CELLS = RING + ['D1', 'E1', 'F1', 'G1']
+
+
+def outcome(sol):
+    out = {}
+    for c in CELLS:
+        v = scalar(sol[P + c]) if P + c in sol else 'MISSING'
+        out[c] = str(v) if isinstance(v, (str, XlError)) else float(v)
+    return out
+
+
+def solve(kinds, flag, order=0):
+    return formulas.ExcelModel().from_dict(hashref.reorder(build(kinds, flag), order)).finish(circular=True).calculate()
+
+
+def all_outcomes():
+    return {'%d,%d,%d' % (kb, kc, f): outcome(solve([KIND_A, kb, kc], bool(f))) for kb in range(NK) for kc in range(NK) for f in (0, 1)}
+
+
 def _book(kinds, flag):
-    m = formulas.ExcelModel().from_dict(build(kinds, flag)).finish(circular=True)
-    sol = m.calculate()
+    sol = solve(kinds, flag)
+    # the outcome depends neither on the order the cells were added ...
+    base = outcome(sol)
+    if any(outcome(solve(kinds, flag, order)) != base for order in (1, 2, 3)):
+        return False
+    # ... nor on the interpreter's hash seed (copies run under a seed != 0 compare with a seed-0 child)
+    ref = hashref.reference(__file__)
+    if ref is not None and ref['%d,%d,%d' % (kinds[1], kinds[2], 1 if flag else 0)] != base:
+        return False
     want, cls = lazy_values(kinds, flag), classify(kinds, flag)
     if scalar(sol[P + 'G1']) != 10 or scalar(sol[P + 'F1']) != 5:
         return False                     # cells that do not depend on the ring are untouched
@@ -112,3 +139,7 @@ def _book(kinds, flag):
     if cls == 'unavoidable' and not any(scalar(sol[P + c]) is formulas.ERR_CIRCULAR for c in RING):
         return False
     return True
+
+
+if hashref.child_mode(__file__):
+    hashref.emit(all_outcomes())
